@@ -599,7 +599,9 @@ func RunC06(d *Driver) *Report {
 		}
 	}
 	r.Rule = fmt.Sprintf("%d accepted texts: every evy block of docs/*.md, every playground sample, hand-written programs covering every syntax form with comments in every position, multi-line array and map literals, empty programs; generated programs; expression texts with parentheses placed at random (operators, groups, indexing, slices, field access, type assertions), as a declaration value and in whitespace-sensitive positions; six whitespace variants of each (trailing spaces, longer blank-line runs, other indentation, tabs, no final newline, doubled spaces) and three comment variants of each formatted text (a trailing comment on every line, comment / blank lines before every line, random runs); those token deletions / insertions / substitutions of each text, and stray words after block headers, that the parser accepts. For each: the non-whitespace token sequence of source and Program.Format output (comments included, literals by value) must be equal, the output must be accepted again, have the same serialised syntax tree, and (every %dth) run to the same platform trace and globals. Non-trivial = distinct text", nprog, nrun)
-	r.DriverCalls = 0
+	nblkC06 := blocksStream(r, d, rng, 400)
+	r.Rule += fmt.Sprintf("; block structure: %d line-level programs (Model/Blocks.lean): tree skeleton of the real parser = the model's tree, for well-nested and broken line sequences", nblkC06)
+	r.DriverCalls = d.N
 	return r
 }
 
@@ -783,7 +785,11 @@ func RunC07(d *Driver) *Report {
 	if berr != nil {
 		r.Disagree(Case{Stream: "build", Input: "go build", Real: berr.Error()})
 	}
+	nblkC07 := blocksStream(r, d, rng, 400)
+	defer func() {
+		r.Rule += fmt.Sprintf("; block structure: %d line-level programs (Model/Blocks.lean): indentation of the formatted text = four spaces times the model's block level", nblkC07)
+	}()
 	r.Rule = fmt.Sprintf("%d accepted texts (the corpus of C06: documentation examples, playground samples, hand-written programs with comments and blank-line runs around func/on of every length pattern, generated programs; their whitespace and comment variants): Format(Format(p)) = Format(p); the layout rules (four spaces per block level incl. multi-line literals, no trailing whitespace, at most one consecutive blank line, exactly one final newline, no leading blank line); every whitespace variant formats to the same text as its original; `evy fmt --check` (rebuilt binary, %d files) exits 0 on the formatter's output and 1 on a trailing blank line, trailing spaces, CRLF line ends and a leading space; with several files (formatted and unformatted ones in every order) and with stdin it exits 0 exactly when every input is formatted, and modifies nothing. Non-trivial = distinct text", nprog, nbin)
-	r.DriverCalls = 0
+	r.DriverCalls = d.N
 	return r
 }
